@@ -1,7 +1,6 @@
 //! In-process mock Discovery and Strategy services (tonic server stubs generated from the
 //! repository's .proto files) plus the real adapters connected to them over loopback.
 use crate::pb;
-use passage_adapters_grpc::{GrpcDiscoveryAdapter, GrpcStrategyAdapter};
 use serde_json::{Value, json};
 use std::sync::{Arc, Mutex};
 use tokio_stream::StreamExt;
@@ -171,10 +170,12 @@ impl pb::strategy_server::Strategy for MockService {
 }
 
 /// One mock server with both services and one pair of real adapters connected to it.
+/// The adapters are the ones the router builds from its configuration (`adapters.discovery.grpc`,
+/// `adapters.strategy.grpc`): the dispatch types of `src/adapter` around the gRPC adapters.
 pub struct Worker {
     pub shared: Shared,
-    pub discovery: GrpcDiscoveryAdapter,
-    pub strategy: GrpcStrategyAdapter,
+    pub discovery: passage::adapter::discovery::DynDiscoveryAdapter,
+    pub strategy: passage::adapter::strategy::DynStrategyAdapter,
 }
 
 impl Worker {
@@ -201,14 +202,20 @@ impl Worker {
             }
         });
         let url = format!("http://127.0.0.1:{port}");
-        let discovery = tokio::time::timeout(std::time::Duration::from_secs(10), GrpcDiscoveryAdapter::new(url.clone()))
-            .await
-            .map_err(|_| "connecting GrpcDiscoveryAdapter timed out".to_string())?
-            .map_err(|e| format!("GrpcDiscoveryAdapter::new: {e}"))?;
-        let strategy = tokio::time::timeout(std::time::Duration::from_secs(10), GrpcStrategyAdapter::new(url))
-            .await
-            .map_err(|_| "connecting GrpcStrategyAdapter timed out".to_string())?
-            .map_err(|e| format!("GrpcStrategyAdapter::new: {e}"))?;
+        let discovery = tokio::time::timeout(
+            std::time::Duration::from_secs(10),
+            passage::adapter::discovery::DynDiscoveryAdapter::from_config(passage::config::DiscoveryAdapter::Grpc(passage::config::GrpcDiscovery { address: url.clone() })),
+        )
+        .await
+        .map_err(|_| "connecting the gRPC discovery adapter timed out".to_string())?
+        .map_err(|e| format!("DynDiscoveryAdapter::from_config: {e}"))?;
+        let strategy = tokio::time::timeout(
+            std::time::Duration::from_secs(10),
+            passage::adapter::strategy::DynStrategyAdapter::from_config(passage::config::StrategyAdapter::Grpc(passage::config::GrpcStrategy { address: url })),
+        )
+        .await
+        .map_err(|_| "connecting the gRPC strategy adapter timed out".to_string())?
+        .map_err(|e| format!("DynStrategyAdapter::from_config: {e}"))?;
         Ok(Worker { shared, discovery, strategy })
     }
 }
